@@ -31,6 +31,7 @@ pub struct GasBinder {
 impl GasBinder {
     pub fn new(inst: &J, init: &J) -> GasBinder {
         let mut cx = Ctx::new();
+        cx.ledger_step = 5;
         let env = cx.env.clone();
         let owner = cx.addr(&jstr(init, "owner"));
         let collector = cx.addr(&jstr(init, "collector"));
